@@ -567,7 +567,7 @@ static void mtldmload(size_t dictSize, int forceWindow, size_t srcOff, size_t sr
     p.ldmParams.enableLdm = ZSTD_ps_enable;
     p.forceWindow = forceWindow;
     p.customMem = cmem;
-    err = ZSTDMT_serialState_reset(&m->serial, m->seqPool, p, (size_t)1 << 20, map, dictSize, ZSTD_dct_rawContent);
+    err = ZSTDMT_serialState_reset(&m->serial, m->seqPool, p, (size_t)1 << 20, map, dictSize, ZSTD_dct_rawContent, cmem);
     printf("M api=mtldmload dictsize=%zu dict=%lld fw=%d err=%d", dictSize, AOFF(map), forceWindow, err);
     {   const ZSTD_window_t* const w = &m->serial.ldmState.window; ll const c_ = (ll)(w->nextSrc - w->base);
         w_out("LW", w); printf(" llde=%u exact=%d", m->serial.ldmState.loadedDictEnd, c_ >= 0 && c_ < 4294967296LL);
